@@ -41,7 +41,24 @@ def gen_layer(rng, dup=False):
         for k in range(rng.choice([0, 1])):
             pr.append(dict(name=f"res{k}", kind="value", bytepos=rng.choice([1 + 2 * k, None]), dop=rng.choice(["dopA", "dopB"]), semantic=None))
         svcs.append(dict(name=f"svc{i}", rq=rq, pr=pr))
-    return dict(services=svcs, ndops=2, dup=dup)
+    if not dup and rng.random() < 0.4:
+        # one service whose request does not start with a constant: its identifying prefix is empty
+        svcs.append(dict(name=f"svc{n}", rq=[dict(name="lead", kind="value", bytepos=0, dop="dopB", semantic=None)],
+                         pr=[dict(name="sid", kind="coded", bytepos=0, bl=8, value=0x77, semantic=None, bt=1)]))
+    return dict(services=svcs, ndops=2, dup=dup, dopbits=dict(dopA=16, dopB=8, dopC=16))
+
+
+def prefix_of(sv):
+    out = []
+    for p in sv["rq"]:
+        if p["kind"] != "coded":
+            break
+        out.append(p["value"])
+    return out[:2]
+
+
+def used_dops(sv):
+    return sorted({p["dop"] for which in ("rq", "pr") for p in sv[which] if p["kind"] == "value"})
 
 
 def x_param(p):
@@ -56,7 +73,7 @@ def x_param(p):
 
 def emit(L):
     dops = ""
-    for nm, bl in (("dopA", 16), ("dopB", 8), ("dopC", 16)):
+    for nm, bl in sorted(L.get("dopbits", dict(dopA=16, dopB=8, dopC=16)).items()):
         dops += (f'<DATA-OBJECT-PROP ID="{nm}"><SHORT-NAME>{nm}</SHORT-NAME><COMPU-METHOD><CATEGORY>IDENTICAL</CATEGORY></COMPU-METHOD>'
                  f'<DIAG-CODED-TYPE BASE-DATA-TYPE="A_UINT32" xsi:type="STANDARD-LENGTH-TYPE"><BIT-LENGTH>{bl}</BIT-LENGTH></DIAG-CODED-TYPE>'
                  '<PHYSICAL-TYPE BASE-DATA-TYPE="A_UINT32"/></DATA-OBJECT-PROP>')
@@ -70,6 +87,9 @@ def emit(L):
         prs += f'<POS-RESPONSE ID="pr.{key}"><SHORT-NAME>pr_{key}</SHORT-NAME><PARAMS>{"".join(x_param(p) for p in s["pr"])}</PARAMS></POS-RESPONSE>'
     cprefs = "".join(f'<COMPARAM-REF ID-REF="CPSUB.{n}" DOCREF="CPSUB" DOCTYPE="COMPARAM-SUBSET"><SIMPLE-VALUE>1</SIMPLE-VALUE></COMPARAM-REF>'
                      for n, _ in hc.SIMPLE_CPS[:L.get("ncp", 0)])
+    # the same parameters once more, for one protocol only: separate entries keyed by (parameter, protocol)
+    cprefs += "".join(f'<COMPARAM-REF ID-REF="CPSUB.{n}" DOCREF="CPSUB" DOCTYPE="COMPARAM-SUBSET"><SIMPLE-VALUE>2</SIMPLE-VALUE>'
+                      '<PROTOCOL-SNREF SHORT-NAME="PX"/></COMPARAM-REF>' for n, _ in hc.SIMPLE_CPS[:L.get("ncp_dup", 0)])
     return ('<?xml version="1.0" encoding="UTF-8"?><ODX MODEL-VERSION="2.2.0" xmlns:xsi="http://www.w3.org/2001/XMLSchema-instance">'
             '<DIAG-LAYER-CONTAINER ID="DLC"><SHORT-NAME>DLC</SHORT-NAME><BASE-VARIANTS><BASE-VARIANT ID="BV"><SHORT-NAME>BV</SHORT-NAME>'
             + (f"<COMPARAM-REFS>{cprefs}</COMPARAM-REFS>" if cprefs else "") +
@@ -114,6 +134,13 @@ def edits(rng, L):
                     e = copy.deepcopy(base)
                     e["services"][i][which][j][attr] = val
                     out.append((f"change-{attr}", e, dict(changed=[s["name"]], prop=label, param=p["name"])))
+    # a data object edited in place (same id, same name): every service using it has changed, no other
+    for dop in ("dopA", "dopB"):
+        users = [s["name"] for s in base["services"] if dop in used_dops(s)]
+        if users:
+            e = copy.deepcopy(base)
+            e["dopbits"][dop] += 8
+            out.append(("change-dopdef", e, dict(changed=users, prop="Linked DOP object", param=None)))
     return base, out
 
 
@@ -186,6 +213,7 @@ def main(argv=None):
             want = dict(new=exp.get("new", []), deleted=exp.get("deleted", []), renamed=exp.get("renamed", []),
                         changed=exp.get("changed", []))
             got = {k: r[k] for k in want}
+            got["changed"], want["changed"] = sorted(set(got["changed"])), sorted(want["changed"])
             if label.startswith("change-bytepos") or label.startswith("change-bl") or label.startswith("change-value"):
                 # edits of the leading constants change the request prefix: the tool cannot tell this from new + deleted
                 pass
@@ -196,7 +224,7 @@ def main(argv=None):
                 # deleting one of several services with the same request prefix cannot be told from a
                 # rename by the tool's duck typing (documented design): compared with the model only
                 twin_delete = label == "delete" and any(
-                    [p["value"] for p in sv["rq"][:2]] == [p["value"] for p in o["rq"][:2]]
+                    prefix_of(sv) == prefix_of(o)
                     for o in base["services"] if o["name"] in exp["deleted"] for sv in new["services"])
                 if twin_delete:
                     ck.hist("edit", "delete-with-twin(model only)")
@@ -214,7 +242,8 @@ def main(argv=None):
                 out = []
                 for sv in layer["services"]:
                     nid = names.setdefault(sv["name"], len(names) + 1)
-                    bid = bodies.setdefault(json.dumps([sv["rq"], sv["pr"]], sort_keys=True), len(bodies) + 1)
+                    bid = bodies.setdefault(json.dumps([sv["rq"], sv["pr"], [layer["dopbits"][d] for d in used_dops(sv)]],
+                                                       sort_keys=True), len(bodies) + 1)
                     pre = list(dl.services[sv["name"]].request.coded_const_prefix())
                     # the DiagService element itself: its name and the ids it carries / refers to
                     did = bodies.setdefault("decl:" + sv["name"] + "/" + sv.get("key", sv["name"]), len(bodies) + 1)
@@ -227,9 +256,9 @@ def main(argv=None):
             except Exception:  # noqa
                 pass
         # layer overview: actual numbers of services, DOPs and communication parameters
-        for ncp in (0, 2, 3):
+        for ncp, ndup in ((0, 0), (2, 0), (3, 0), (3, 2)):
             Lm = copy.deepcopy(base)
-            Lm["ncp"] = ncp
+            Lm["ncp"], Lm["ncp_dup"] = ncp, ndup
             try:
                 dbm = hc.load_docs([emit(Lm), hc.cpsubset_doc(), hc.cpsubset2_doc(), hc.cpspec_doc()])
             except Exception:  # noqa
@@ -244,7 +273,7 @@ def main(argv=None):
             ck.count(("metrics", json.dumps(Lm)))
             cells = [c.strip() for line in txt.splitlines() if "BV" in line for c in line.replace("│", "|").replace("┃", "|").split("|")]
             nums = [int(c) for c in cells if c.isdigit()]
-            want_nums = [len(Lm["services"]), 3, ncp]
+            want_nums = [len(Lm["services"]), 3, ncp + ndup]
             if e2 is not None or nums != want_nums:
                 ck.violation(f"print_dl_metrics reports {nums} (services, DOPs, communication parameters), actual numbers are {want_nums}",
                              {"old": Lm, "output": txt[-600:]})
